@@ -145,14 +145,13 @@ theorem C13_wrap_union_self_unconditional {d : Doc} (wf : WF d) (cfg : ECfg) (hn
       (∀ x, x ∈ ns ↔ x ∈ nodesOf (Spec.eval (F := F) d p ⟨c, 1, 1⟩)) :=
   C13_wrap_union_self wf cfg hns (PathSem.hashInj_holds wf hattr cfg) hp c hc
 
-/-- **wrapper `not(not(P))` = `boolean(P)`** at plan level whenever `P` evaluates to a node-set, a
-boolean, or fails (the arguments C07/C13 quantify over) -/
-theorem C13_wrap_not_not (d : Doc) (cfg : ECfg) (fi₁ fi₂ fi₃ : Plan) (P : Plan) (c : Ref)
-    (h : (∃ l, evalP (F := F) d cfg P c = .ok (.nodes l)) ∨ (∃ b, evalP (F := F) d cfg P c = .ok (.bool b)) ∨
-      (∃ e, evalP (F := F) d cfg P c = .error e)) :
+/-- **wrapper `not(not(P))` = `boolean(P)`** at plan level, for **every** plan `P` — whatever `P`
+evaluates to (node-set, boolean, number, string), failures included.  (Before the repair of
+`notFunc` this held only when `P` evaluated to a node-set or a boolean, or failed.) -/
+theorem C13_wrap_not_not (d : Doc) (cfg : ECfg) (fi₁ fi₂ fi₃ : Plan) (P : Plan) (c : Ref) :
     evalP (F := F) d cfg (.func "not" fi₁ (.pcons (.func "not" fi₂ (.pcons P .pnil)) .pnil)) c =
       evalP (F := F) d cfg (.func "boolean" fi₃ (.pcons P .pnil)) c :=
-  not_not_plan d cfg fi₁ fi₂ fi₃ P c h
+  not_not_plan_spec d cfg fi₁ fi₂ fi₃ P c
 
 open XPathV.PredSem XPathV.Compose2 in
 /-- **C13, absolute paths with boolean predicates**: the plan built from any absolute path of the
